@@ -77,7 +77,11 @@ ASSUMPTIONS = ['spelling_equiv : spelling_equiv_full (whole argument vector, get
                'a context without a convention passes parameters under their python names as they are (doc-silent; modelled '
                'as implemented; the oracle does not test trailing-underscore names there)',
                'is_keyword is a prefix test (re.match): a key like "a b" counts as a keyword (modelled as implemented; the '
-               'oracle adds only keys that are no keywords under any reading)']
+               'oracle adds only keys that are no keywords under any reading)',
+               'keyword names that no named parameter takes are data: **kwargs receives them as written under every convention '
+               '(starstar sweep: harness-registered kwprobe(*args, **kwargs) / kwprobe2(p_one, second=0, *args, **kwargs), let, '
+               'def; a keyword equal to the PYTHON name of a declared parameter that is not its name in the context is not '
+               'tried - it collides inside Python\'s own call)']
 
 
 def generate():
@@ -814,15 +818,15 @@ def starstar_sweep(conv, root, rng, n_cases, sink, where=None):
             if written != exp:
                 sink.fail('oracle', 'starstar-verbatim:' + kind,
                           '%s %s written in the expression: the function receives %s, the names as written are %s' % (
-                              loc, shown, written[:200], exp[:200]), case)
+                              loc, shown, pretty(written), pretty(exp)), case)
         elif not written.startswith('err:'):
             sink.fail('oracle', 'starstar-verbatim:' + kind, '%s %s: a required parameter is missing or passed twice, yet '
-                      'the call returns %s' % (loc, shown, written[:200]), case)
+                      'the call returns %s' % (loc, shown, pretty(written)), case)
         diff = [(t, o) for t, o in outs[1:] if o != written]
         if diff:
             sink.fail('oracle', 'starstar-spelling:' + kind,
                       '%s %s: written in the expression -> %s but through %s -> %s' % (
-                          loc, shown, written[:200], diff[0][0], diff[0][1][:200]), case)
+                          loc, shown, pretty(written), diff[0][0], pretty(diff[0][1])), case)
         if kind == 'kwprobe2' and not written.startswith('err:') and not written.startswith('unencodable'):
             # tie to Yaql.Naming.splitKeywords: which keywords the named parameters take, which go to **kwargs
             try:
@@ -831,6 +835,29 @@ def starstar_sweep(conv, root, rng, n_cases, sink, where=None):
                                       real=sorted(_dict_keys(got))))
             except Exception:
                 pass
+
+
+def pretty(o):
+    """an outcome string in readable form"""
+    if o.startswith('err:') or o.startswith('unencodable'):
+        return o
+
+    def dec(j):
+        if isinstance(j, dict) and len(j) == 1:
+            (k, x), = j.items()
+            if k == 's':
+                return x if isinstance(x, str) else ''.join(chr(c) for c in x)
+            if k == 'i':
+                return int(x)
+            if k in ('tu', 'li', 'it', 'se'):
+                return [dec(t) for t in x]
+            if k == 'd':
+                return {repr(dec(a)) if not isinstance(dec(a), str) else dec(a): dec(b) for a, b in x}
+        return j
+    try:
+        return json.dumps(dec(json.loads(o)))[:240]
+    except Exception:
+        return o[:240]
 
 
 def _dict_keys(canon_json):
@@ -1093,7 +1120,9 @@ def run(env, res):
     res.rule = ('every registered definition x argument tuples from a typed corpus (values that pass the parameter\'s own '
                 'check; each defaulted parameter given or left out) x spellings (all positional, every positional/keyword '
                 'split, the names the convention promises, explicit defaults, method form, call() with and without keys '
-                'that are no keywords) x contexts of every naming convention in several creation orders; '
+                'that are no keywords) x contexts of every naming convention in several creation orders; plus the starstar sweep: '
+                'functions that collect keywords in **kwargs (a host probe that returns what it received, let, def) x keyword '
+                'names a convention would rewrite next to their rewritings x written-in-the-expression / call() / delegate; '
                 'distinct = (context, definition, tuple); non-trivial = at least two spellings and the positional '
                 'spelling resolves')
     replay = json.load(open(env['replay']))['case'] if env['replay'] else None
@@ -1213,7 +1242,10 @@ LEVEL_TEXT = ('Lean 4: call_equiv, ext_both_ways, kind_exclusive, spelling_equiv
               'fresh interpreters; regenerated per run). Tie: every registered definition called through the real resolver '
               'in every spelling on typed corpus tuples (same result / error class) in contexts of every convention and '
               'creation order, call() with extra non-keyword keys, map_args/get_delegate of the real definition against the '
-              'model per spelling, and the naming / filtering functions against the model.')
+              'model per spelling, and the naming / filtering functions against the model.  Keyword names that bind to **kwargs '
+              'are data (starstar_names_verbatim / starstar_keywords_partition / starstar_all_verbatim over Naming.splitKeywords '
+              'for every convention, starstar_delegate_verbatim at get_delegate level); tie: what a **kwargs function receives '
+              'for adversarial names written in the expression, through call() and as delegate keywords, in every convention.')
 LEVEL_NOTE = ('trusted: Lean kernel; Model/Types, Resolve, RegistryRow, Naming; the registry dump; the corpus. spelling_equiv is '
               'proved for the whole vector (spelling_equiv_full, with the guards named in ASSUMPTIONS); map_args by itself is '
               'shown not to be spelling-invariant (constants passed by keyword are not checked there; an empty slot whose '
